@@ -239,6 +239,42 @@ def check_termination(ctx, db, config):
         ctx.floor('O4.some', nsome, 1, 'Some-returning paths of the generator')
 
 
+DEBUG_JUSTIFIED = [
+    # (owner function, regex on the condition shape, why the debug-only check cannot fire on a try_* path although the lemma library cannot show it)
+    ('Bump::new_chunk_memory_details', r'Assert\(Overflow\(Add', 'chunk sizing adds OVERHEAD/FOOTER_SIZE to values bounded by the Layout invariant and by 2x the current chunk (A1, tabled in C19)'),
+    ('Bump::new_chunk', r'Assert\(Overflow\(Add', 'allocated_bytes accumulates sizes of live blocks: bounded by the address space'),
+    ('Bump::alloc_layout_slow', r'mod\(load\[\*\(payload\(iter_any', 'the new chunk was requested with an alignment the request alignment divides (C04.O3, A4)'),
+    ('Bump::alloc_layout_slow', r'is_some\(phi', 'the retry on the fresh chunk succeeds because the chunk was sized for the request (C01.O5); for align > 16 this needs number theory outside the lemma set (stated as not decided)'),
+    ('Bump::try_alloc_slice_fill_with', r'eq\(&, &\)', 'Layout::for_value(result) == Layout::array::<T>(len): same element type and count'),
+    ('Bump::try_alloc_with', r'Assert\((Null|Misaligned)PointerDerefer', 'rustc UB check on &mut *p for p returned by try_alloc_layout: non-null and aligned to align_of::<T>() (C04.O2, C01.O2)'),
+    ('Bump::try_alloc_try_with', r'Assert\((Null|Misaligned)PointerDerefer', 'rustc UB check on a pointer returned by try_alloc_layout (C04.O2, C01.O2)'),
+    ('Bump::try_with_min_align_and_capacity', r"\('lt', '16', 'MIN_ALIGN'\)", 'the required constructor assertion MIN_ALIGN <= CHUNK_ALIGN (C04)'),
+    ('Bump::with_min_align', r"\('lt', '16', 'MIN_ALIGN'\)", 'the required constructor assertion MIN_ALIGN <= CHUNK_ALIGN (C04)'),
+    ('round_up_to_unchecked', r'.*', 'round_up(size(L), align(L)) cannot overflow: Layout invariant A2 (also in the release table)'),
+    ('Bump::new_chunk_memory_details', r'allocation_size_overflow', 'as in the release table'),
+]
+
+
+def debug_sites(ctx, config='dbg-all'):
+    """(discharged, open) debug-build panic edges reachable from the try_* methods, keyed by owner + condition shape"""
+    import re
+    db = ctx.db(config)
+    norm = re.compile(r'(@\d+|#\d+|\?\d+:|loop\d+:|_\d+@\d+)')
+    done, opened = {}, {}
+    for b in try_entries(db):
+        I = arena.ArenaInterp(db, refute_panic_edges=True)
+        r = I.run_entry(b['id'])
+        for e in r.events:
+            if e.kind in ('assert_open', 'assert_discharged'):
+                shape = sorted((f[0],) + tuple(norm.sub('', show(x))[:70] for x in f[1:]) for f in e.extra['added'] if f[0] in ('lt', 'le', 'eq', 'ne', 'true', 'nottrue'))
+                k = (owner(I, e)[0], str(shape[:2]))
+                (done if e.kind == 'assert_discharged' else opened).setdefault(k, []).append((b['meta']['name'], e))
+            elif e.kind == 'assert' and not is_c(e.val):
+                k = (owner(I, e)[0], 'Assert(%s) %s' % (str(e.extra.get('msg'))[:24], norm.sub('', show(e.val))[:70]))
+                (done if e.extra.get('why') else opened).setdefault(k, []).append((b['meta']['name'], e))
+    return done, opened
+
+
 def thorough(ctx):
     """repeat R1 with debug assertions and overflow checks on: debug-only panics must be discharged or tabled"""
     db = ctx.db('dbg-all')
@@ -251,3 +287,19 @@ def thorough(ctx):
             if k not in JUSTIFIED:
                 und.append((b['meta']['name'], k, loc(evs[0].span)))
     ctx.extra['debug_build_panic_sites'] = {'entries': len(try_entries(db)), 'sites': n, 'not_in_release_table': sorted({'%s in %s' % (k[1], k[0]) for _, k, _ in und})[:60]}
+    done, opened = debug_sites(ctx)
+    ctx.extra['debug_assertions'] = {'discharged_shapes': len(done), 'open_shapes': len(opened), 'open': sorted('%s: %s' % k for k in opened)[:80]}
+    import re
+    for k, lst in sorted(done.items()):
+        ctx.ok('R4', 'debug build: %s cannot fail: %s' % k, (lst[0][1].extra.get('why') or '') + ' (%d contexts)' % len(lst))
+    for k, lst in sorted(opened.items()):
+        just = None
+        for own, rx, why in DEBUG_JUSTIFIED:
+            if k[0] == own and re.search(rx, k[1]):
+                just = why
+        if just:
+            ctx.ok('R4', 'debug build: %s, %s' % k, 'not discharged by the lemma library; tabled: ' + just)
+        else:
+            e = lst[0][1]
+            ctx.violation('R4', k[0], 'debug-assert:' + k[1][:70], 'in a debug build the fallible method %s can panic at a debug assertion / overflow check in %s whose condition is neither provable from the path facts and the chunk invariant nor tabled: %s' % (lst[0][0], k[0], k[1][:160]), e.span)
+    ctx.floor('R4', len(done), 100, 'debug-build assertion shapes discharged')
